@@ -777,6 +777,9 @@ impl<'a> Parser<'a> {
         let bytes = self.re.as_bytes();
         // get the character after the open paren
         let b = bytes[ix];
+        // `(?(1)..)`, `(?('name')..)`, `(?(<name>)..)` test whether the group has matched; any other
+        // condition is an expression to be matched (also when that expression is a back-reference)
+        let is_group_test = is_digit(b) || b == b'\'' || b == b'<';
         let (mut next, condition) = if is_digit(b) {
             self.parse_numbered_backref(ix, &|group| Expr::Backref(group))?
         } else if b == b'\'' {
@@ -793,9 +796,9 @@ impl<'a> Parser<'a> {
         let has_else = self.last_re_had_alt;
         if end == next {
             // Backreference validity checker
-            if let Expr::Backref(group) = condition {
+            if let (true, Expr::Backref(group)) = (is_group_test, &condition) {
                 let after = self.check_for_close_paren(end)?;
-                return Ok((after, Expr::BackrefExistsCondition(group)));
+                return Ok((after, Expr::BackrefExistsCondition(*group)));
             } else {
                 return Err(Error::ParseError(
                     end,
@@ -826,10 +829,9 @@ impl<'a> Parser<'a> {
             // there is only one branch - the truth branch. i.e. "if" without "else"
             if_true = single.expect("single branch");
         }
-        let inner_condition = if let Expr::Backref(group) = condition {
-            Expr::BackrefExistsCondition(group)
-        } else {
-            condition
+        let inner_condition = match condition {
+            Expr::Backref(group) if is_group_test => Expr::BackrefExistsCondition(group),
+            condition => condition,
         };
 
         let after = self.check_for_close_paren(end)?;
